@@ -151,7 +151,7 @@ theorem svDims_swap (k d0 d1 : Nat) (m : Nat) :
   simp [h0, h1, h2]
 
 /-- `mat_2[(j*k+j')*d0*d1 + s*d1 + t] = a[j*d0+s] * b[j'*d1+t]` -/
-theorem svMat2_apply (k d0 d1 : Nat) (a b : Nat → α) (hk : 0 < k) (h0 : 0 < d0) (h1 : 0 < d1)
+theorem svMat2_apply (k d0 d1 : Nat) (a b : Nat → α) (hk : 0 < k) (_h0 : 0 < d0) (h1 : 0 < d1)
     (j j' s t : Nat) (hj : j < k) (hj' : j' < k) (hs : s < d0) (ht : t < d1) :
     svMat2 k d0 d1 a b ((j * k + j') * (d0 * d1) + (s * d1 + t)) = a (j * d0 + s) * b (j' * d1 + t) := by
   let y : Nat → Nat := fun m => if m = 0 then j else if m = 1 then j' else if m = 2 then s else t
